@@ -16,10 +16,11 @@ res() { printf '%-34s %s\n' "$1" "$2"; }
 git -C "$wt" apply "$d/patch.diff" || { res "patch applies" NO; exit 1; }
 res "patch applies" yes
 (cd "$wt/v8" && go build ./... >/dev/null 2>&1) && res "builds" yes || { res "builds" NO; git -C "$wt" checkout -q -- .; exit 1; }
-(cd "$wt/v8" && go test -vet=off -count=1 ./... >/tmp/confirm_suite.log 2>&1) && res "suite passes with change" yes || { res "suite passes with change" NO; grep -E "^(---|FAIL)" /tmp/confirm_suite.log | head -5; }
+(cd "$wt/v8" && go test -vet=off -count=1 ./... >/tmp/confirm_suite.$$.log 2>&1) && res "suite passes with change" yes || { res "suite passes with change" NO; grep -E "^(---|FAIL)" /tmp/confirm_suite.$$.log | head -5; }
 cp "$d/demo_test.go" "$demo"
-(cd "$wt/v8" && timeout 600 bash -c "$runcmd" >/tmp/confirm_demo_with.log 2>&1) && res "demo FAILS with change" "NO (passed)" || res "demo FAILS with change" yes
+(cd "$wt/v8" && timeout 600 bash -c "$runcmd" >/tmp/confirm_demo_with.$$.log 2>&1) && res "demo FAILS with change" "NO (passed)" || res "demo FAILS with change" yes
 git -C "$wt" apply -R "$d/patch.diff"
-(cd "$wt/v8" && timeout 600 bash -c "$runcmd" >/tmp/confirm_demo_without.log 2>&1) && res "demo PASSES without change" yes || { res "demo PASSES without change" NO; tail -5 /tmp/confirm_demo_without.log; }
+(cd "$wt/v8" && timeout 600 bash -c "$runcmd" >/tmp/confirm_demo_without.$$.log 2>&1) && res "demo PASSES without change" yes || { res "demo PASSES without change" NO; tail -5 /tmp/confirm_demo_without.$$.log; }
 rm -f "$demo"
 git -C "$wt" checkout -q -- . ; git -C "$wt" clean -fdq
+rm -f /tmp/confirm_suite.$$.log /tmp/confirm_demo_with.$$.log /tmp/confirm_demo_without.$$.log
